@@ -91,3 +91,100 @@ Theorem C13_struct_single_field : forall fields b,
                sb_ctor b = match f with None => SKTuple | Some n => SKNamed n end.
 Proof. exact Proofs.struct_expand_single. Qed.
 Print Assumptions C13_struct_single_field.
+
+(* ================================================================== growth round *)
+(* (names_ok_unrawed vs : names_ok true true vs) is accepted where names_ok key_unraw guard_unraw vs is
+   expected only while both switches read `true`: the obligations below break if the source goes back *)
+
+(** no two variants share a lower-cased name: every variant is matched ignoring case, nothing else is accepted *)
+Theorem C13_no_collision_iff : forall (lower : str -> str) enum vs s v,
+  NoDup (map (fun w => lower (iname w)) vs) ->
+  (enum_from lower key_unraw guard_unraw name_unraw enum vs s = Ok v <-> (In v vs /\ lower s = lower (iname v))).
+Proof. exact (fun lower enum vs s v ND => Proofs.no_collision_iff lower key_unraw guard_unraw name_unraw enum vs s v ND (Proofs.names_ok_unrawed vs)). Qed.
+Print Assumptions C13_no_collision_iff.
+
+(** all variants share one lower-cased name (a collision group of ANY size >= 2): exact names only *)
+Theorem C13_all_collision_iff : forall (lower : str -> str) enum vs k s v,
+  NoDup (map iname vs) -> (forall w, In w vs -> lower (iname w) = k) -> (2 <= length vs)%nat ->
+  (enum_from lower key_unraw guard_unraw name_unraw enum vs s = Ok v <-> (In v vs /\ s = iname v)).
+Proof. exact (fun lower enum vs k s v ND => Proofs.all_collision_iff lower key_unraw guard_unraw name_unraw enum vs k s v ND (Proofs.names_ok_unrawed vs)). Qed.
+Print Assumptions C13_all_collision_iff.
+
+Theorem C13_collision_exact_only : forall (lower : str -> str) enum vs s v,
+  NoDup (map iname vs) -> unique_lower lower iname vs v = false ->
+  enum_from lower key_unraw guard_unraw name_unraw enum vs s = Ok v -> s = iname v.
+Proof. exact (fun lower enum vs s v ND => Proofs.collision_exact_only lower key_unraw guard_unraw name_unraw enum vs s v ND (Proofs.names_ok_unrawed vs)). Qed.
+Print Assumptions C13_collision_exact_only.
+
+Theorem C13_case_insensitive_unique : forall (lower : str -> str) enum vs s s' v,
+  NoDup (map iname vs) -> unique_lower lower iname vs v = true -> lower s = lower s' ->
+  enum_from lower key_unraw guard_unraw name_unraw enum vs s = Ok v ->
+  enum_from lower key_unraw guard_unraw name_unraw enum vs s' = Ok v.
+Proof. exact (fun lower enum vs s s' v ND => Proofs.case_insensitive_unique lower key_unraw guard_unraw name_unraw enum vs s s' v ND (Proofs.names_ok_unrawed vs)). Qed.
+Print Assumptions C13_case_insensitive_unique.
+
+(** the only property of to_lowercase ever needed, and only here: idempotence on that one name *)
+Theorem C13_lowercased_name_parses : forall (lower : str -> str) enum vs v,
+  NoDup (map iname vs) -> In v vs -> unique_lower lower iname vs v = true ->
+  lower (lower (iname v)) = lower (iname v) ->
+  enum_from lower key_unraw guard_unraw name_unraw enum vs (lower (iname v)) = Ok v.
+Proof. exact (fun lower enum vs v ND => Proofs.lowercased_name_parses lower key_unraw guard_unraw name_unraw enum vs v ND (Proofs.names_ok_unrawed vs)). Qed.
+Print Assumptions C13_lowercased_name_parses.
+
+(** the documented rule never selects two variants *)
+Theorem C13_rule_deterministic : forall (lower : str -> str) vs s v w,
+  NoDup (map iname vs) ->
+  (In v vs /\ if unique_lower lower iname vs v then lower s = lower (iname v) else s = iname v) ->
+  (In w vs /\ if unique_lower lower iname vs w then lower s = lower (iname w) else s = iname w) -> v = w.
+Proof. exact Proofs.rule_deterministic. Qed.
+Print Assumptions C13_rule_deterministic.
+
+Theorem C13_err_name_plain : forall (lower : str -> str) enum vs s e,
+  raw enum = false -> enum_from lower key_unraw guard_unraw name_unraw enum vs s = Err e -> e = iname enum.
+Proof. exact (fun lower => Proofs.err_name_plain lower key_unraw guard_unraw name_unraw). Qed.
+Print Assumptions C13_err_name_plain.
+
+Theorem C13_error_message_injective : forall a b, error_message a = error_message b -> a = b.
+Proof. exact Proofs.error_message_injective. Qed.
+Print Assumptions C13_error_message_injective.
+
+Theorem C13_enum_accepts_iff : forall fs, enum_accepts fs = true <-> (forall b, In b fs -> b = true).
+Proof. exact Proofs.enum_accepts_iff. Qed.
+Print Assumptions C13_enum_accepts_iff.
+
+(** newtype impl header, generics included: every type parameter gets the FromStr bound *)
+Theorem C13_struct_header : forall trait name ps w,
+  let h := struct_header trait name ps w in
+  Forall (Proofs.bound_of trait) (h_params h) /\
+  map fst (h_params h) = map gp ps /\
+  (forall p, In p ps -> match gp p with
+                        | GType _ => In (gp p, gp_bounds p ++ [trait]) (h_params h)
+                        | _ => In (gp p, gp_bounds p) (h_params h)
+                        end) /\
+  h_self h = (name, map (fun p => garg (gp p)) ps) /\ h_where h = w /\ h_trait h = trait.
+Proof. exact Proofs.struct_header_spec. Qed.
+Print Assumptions C13_struct_header.
+
+Theorem C13_enum_header : forall trait name ps w,
+  let h := enum_header trait name ps w in
+  h_params h = map (fun p => (gp p, gp_bounds p)) ps /\
+  h_self h = (name, map (fun p => garg (gp p)) ps) /\ h_where h = w /\ h_trait h = trait /\
+  In a_automatically_derived (h_attrs h).
+Proof. exact Proofs.enum_header_spec. Qed.
+Print Assumptions C13_enum_header.
+
+(** every field-less enum the macro accepts - variants spelled `V`, `V()` or `V {}` - has arms that are
+    values of the enum ([arm_braces] read from the source: `#input_type::#variant {}`) *)
+Theorem C13_accepted_arms_typecheck : forall ss,
+  enum_accepts_shapes ss = true -> arms_typecheck arm_braces ss = true.
+Proof. exact (Proofs.accepted_arms_typecheck arm_braces eq_refl). Qed.
+Print Assumptions C13_accepted_arms_typecheck.
+
+Theorem C13_accepts_shapes_iff : forall ss, enum_accepts_shapes ss = true <-> (forall s, In s ss -> s <> VFields).
+Proof. exact Proofs.accepts_shapes_iff. Qed.
+Print Assumptions C13_accepts_shapes_iff.
+
+Theorem C13_unit_only_ok : forall braces ss,
+  (forall s, In s ss -> s = VUnit) -> enum_accepts_shapes ss = true /\ arms_typecheck braces ss = true.
+Proof. exact Proofs.unit_only_ok. Qed.
+Print Assumptions C13_unit_only_ok.
